@@ -146,6 +146,9 @@ pub struct GenState {
     /// keys currently "armed" for a weak delete (inserted exactly once since last weak delete)
     pub single: std::collections::HashMap<Vec<u8>, u8>,
     pub mono: u64,
+    /// number of writes per key (filter profile: Destroy / RemoveWeak only for keys written once)
+    pub wcount: std::collections::HashMap<Vec<u8>, u32>,
+    pub frozen: std::collections::HashSet<Vec<u8>>,
 }
 
 fn snap_choice(rng: &mut Rng, st: &GenState) -> Option<u32> {
@@ -247,6 +250,8 @@ pub fn generate(profile: &str, seed: u64, n_ops: usize, blob: bool) -> History {
         live_snaps: vec![],
         single: std::collections::HashMap::new(),
         mono: 0,
+        wcount: std::collections::HashMap::new(),
+        frozen: std::collections::HashSet::new(),
     };
     let mut ops = Vec::with_capacity(n_ops);
     // phase weights vary per history so that some are write-heavy, some maintenance-heavy
@@ -282,6 +287,10 @@ pub fn generate(profile: &str, seed: u64, n_ops: usize, blob: bool) -> History {
                         ops.push(Op::Put(k, v));
                     }
                     _ => {
+                        if st.frozen.contains(&k) {
+                            continue;
+                        }
+                        *st.wcount.entry(k.clone()).or_insert(0) += 1;
                         if rng.chance(3, 4) {
                             let v = rand_value(&mut rng, &mut st.vn, true);
                             ops.push(Op::Put(k, v));
@@ -355,13 +364,25 @@ pub fn generate(profile: &str, seed: u64, n_ops: usize, blob: bool) -> History {
                 }
                 "filter" => {
                     let k = rng.pick(&st.keys).clone();
-                    let v = match rng.below(8) {
+                    if st.frozen.contains(&k) {
+                        continue;
+                    }
+                    let once = st.wcount.get(&k).copied().unwrap_or(0) == 1;
+                    let v = match rng.below(10) {
                         0 | 1 => "k".to_string(),
-                        2 | 3 => {
+                        2 | 3 | 4 => {
                             let nv = rand_value(&mut rng, &mut st.vn, true);
                             format!("r:{}", crate::util::hex(&nv))
                         }
-                        4 | 5 => "x".to_string(),
+                        5 | 6 => "x".to_string(),
+                        7 if once => {
+                            st.frozen.insert(k.clone());
+                            "d".to_string()
+                        }
+                        8 if once => {
+                            st.frozen.insert(k.clone());
+                            "w".to_string()
+                        }
                         _ => "k".to_string(),
                     };
                     ops.push(Op::Verdict(k, v));
